@@ -41,6 +41,8 @@ def main():
             return
         files = [l.split("/")[-1].strip() for l in open(patch) if l.startswith("+++ ")]
         props = sorted({p for f in files for p in AFFECTED.get(f, [])})
+        if os.environ.get("HARMLESS_PROPS"):
+            props = [p for p in props if p in os.environ["HARMLESS_PROPS"].split(",")]
         keep = "/var/tmp/evidence-keep-%d" % os.getpid()     # evidence files describe runs against /repo itself
         shutil.rmtree(keep, ignore_errors=True)
         shutil.copytree(os.path.join(ROOT, "evidence"), keep)
@@ -62,6 +64,10 @@ def main():
             for f in os.listdir(keep):
                 shutil.copy(os.path.join(keep, f), os.path.join(ROOT, "evidence", f))
             shutil.rmtree(keep, ignore_errors=True)
+        try:
+            res = dict(json.load(open(os.path.join(d, "meta.json"))).get("checked", {}), **res)   # keep earlier runs
+        except (OSError, ValueError):
+            pass
         meta = {"files": files, "checked": res,
                 "silent": sorted(p for p, v in res.items() if v["exit"] == 0),
                 "alarm_no_failing_input": sorted(p for p, v in res.items() if v["exit"] != 0 and "no-failing-input-found" in v["line"]),
